@@ -11,6 +11,60 @@ from collections import deque
 from .core import AnalysisError
 
 
+def _norm_atom(e, truth):
+    """Normalise an atomic condition: `X is not None` -> (`X is None`, not truth),
+    `a not in b` -> (`a in b`, not truth), `a != b` -> (`a == b`, not truth)."""
+    if isinstance(e, ast.Compare) and len(e.ops) == 1:
+        op = e.ops[0]
+        flip = {ast.IsNot: ast.Is, ast.NotIn: ast.In, ast.NotEq: ast.Eq}
+        for neg, pos in flip.items():
+            if isinstance(op, neg):
+                e2 = ast.Compare(left=e.left, ops=[pos()], comparators=e.comparators)
+                return e2, ast.unparse(e2), (not truth)
+    return e, ast.unparse(e), truth
+
+
+def edge_facts(expr, label):
+    """Facts implied by taking branch `label` (True/False) of the test `expr`:
+    `not` is stripped, a true conjunction yields every conjunct, a false disjunction the
+    negation of every disjunct.  -> [(atom ast, text, truth)]"""
+    if label not in (True, False):
+        return []
+    e = expr
+    t = label
+    while isinstance(e, ast.UnaryOp) and isinstance(e.op, ast.Not):
+        t = not t
+        e = e.operand
+    if isinstance(e, ast.BoolOp):
+        if isinstance(e.op, ast.And) and t:
+            out = []
+            for v in e.values:
+                out += edge_facts(v, True)
+            return out
+        if isinstance(e.op, ast.Or) and not t:
+            out = []
+            for v in e.values:
+                out += edge_facts(v, False)
+            return out
+        return [(e, ast.unparse(e), t)]
+    return [_norm_atom(e, t)]
+
+
+def assume(*facts):
+    """edge_ok predicate for CFG.reach: an edge is infeasible if taking it implies the
+    negation of an assumed fact.  facts: (text, truth) with normalised text."""
+    want = dict(facts)
+
+    def edge_ok(node, lab):
+        if node.kind != 'test' or lab not in (True, False):
+            return True
+        for _, tx, tr in edge_facts(node.expr, lab):
+            if tx in want and want[tx] != tr:
+                return False
+        return True
+    return edge_ok
+
+
 class Node:
     __slots__ = ('id', 'kind', 'ast', 'expr', 'succ', 'pred', 'lineno')
 
@@ -415,6 +469,17 @@ class CFG:
             if blocked:
                 out.add((t, lab))
         return out
+
+    def facts(self, nid):
+        """Atomic facts [(atom ast, text, truth)] that hold whenever node `nid` executes:
+        the branch facts of its strict guards (polarity-normalised, see edge_facts)."""
+        out = []
+        for t, lab in self.strict_guards(nid):
+            out += edge_facts(self.nodes[t].expr, lab)
+        return out
+
+    def has_fact(self, nid, text, truth=True):
+        return any(tx == text and tr == truth for _, tx, tr in self.facts(nid))
 
     # -- reaching definitions --------------------------------------------------
     @staticmethod
